@@ -51,8 +51,11 @@ def A(x, dtype=float):
 class Fx:
     """One population: raw python data in *population order* (after applying `perm` to the base rows)."""
 
-    def __init__(self, n, variant, seed, perm=None, layout="2x2"):
+    def __init__(self, n, variant, seed, perm=None, layout="2x2", shared=False):
         self.n, self.variant, self.seed, self.layout = n, variant, seed % 3, layout
+        self.shared = shared          # shared: the pybrops input objects are created once and handed to every factory call
+        self._objs = {}
+        self._args = {}
         self.perm = tuple(perm) if perm is not None else tuple(range(n))
         assert sorted(self.perm) == list(range(n))
         rows = [PHASED[variant][i] for i in self.perm]
@@ -115,31 +118,99 @@ class Fx:
                     vrnt_name=numpy.array([f"m{j}" for j in range(M)], dtype=object),
                     vrnt_genpos=A(self.genpos()), vrnt_xoprob=A(xoprob))
 
+    def _memo(self, key, make):
+        if not self.shared:
+            return make()
+        if key not in self._objs:
+            self._objs[key] = make()
+        return self._objs[key]
+
+    def arg(self, name, arr):
+        """Register an array that is handed to a factory as an argument (checked for being left untouched)."""
+        if self.shared:
+            if name in self._args:
+                return self._args[name][0]
+            self._args[name] = (arr, arr.copy())
+        return arr
+
     def pgmat(self):
+        return self._memo("pgmat", self._pgmat)
+
+    def gmat(self):
+        return self._memo("gmat", self._gmat)
+
+    def gpmod(self, u=None):
+        return self._memo("gpmod" if (u is None or u is self.u) else "gpmod_nz", lambda: self._gpmod(u))
+
+    def bvmat(self):
+        return self._memo("bvmat", self._bvmat)
+
+    def _pgmat(self):
         from pybrops.popgen.gmat.DensePhasedGenotypeMatrix import DensePhasedGenotypeMatrix
         pg = DensePhasedGenotypeMatrix(mat=A(self.phased, "int8"), taxa=numpy.array(self.taxa, dtype=object),
                                        taxa_grp=A(self.grp, "int64"), **self._vrnt())
         pg.group_vrnt()
         return pg
 
-    def gmat(self):
+    def _gmat(self):
         from pybrops.popgen.gmat.DenseGenotypeMatrix import DenseGenotypeMatrix
         g = DenseGenotypeMatrix(mat=A(self.counts, "int8"), taxa=numpy.array(self.taxa, dtype=object),
                                 taxa_grp=A(self.grp, "int64"), ploidy=2, **self._vrnt())
         g.group_vrnt()
         return g
 
-    def gpmod(self, u=None):
+    def _gpmod(self, u=None):
         from pybrops.model.gmod.DenseAdditiveLinearGenomicModel import DenseAdditiveLinearGenomicModel
         return DenseAdditiveLinearGenomicModel(beta=A([self.beta]), u_misc=None, u_a=A(self.u if u is None else u),
                                                trait=numpy.array(["y0", "y1"], dtype=object))
 
-    def bvmat(self):
+    def _bvmat(self):
         """Breeding value matrix whose *stored* (scaled) values are self.bv, with a non-trivial location/scale."""
         from pybrops.popgen.bvmat.DenseBreedingValueMatrix import DenseBreedingValueMatrix
         return DenseBreedingValueMatrix(mat=A(self.bv), location=A(self.loc), scale=A(self.scale),
                                         taxa=numpy.array(self.taxa, dtype=object), taxa_grp=A(self.grp, "int64"),
                                         trait=numpy.array(["y0", "y1"], dtype=object))
+
+
+    # ---- observable state of every input object handed out so far ----------------------------------------
+    def input_state(self):
+        from ..fix import snapshot
+        out = {}
+        for key, o in sorted(self._objs.items()):
+            if key in ("pgmat", "gmat"):
+                st = snapshot(o)
+            elif key == "bvmat":
+                st = {f: _cp(getattr(o, f)) for f in ("mat", "location", "scale", "taxa", "taxa_grp", "trait")}
+                st["unscale()"] = _cp(o.unscale())
+            else:
+                st = {f: _cp(getattr(o, f)) for f in ("beta", "u_a", "u_misc", "trait")}
+            for f, v in st.items():
+                out[f"{key}.{f}"] = v
+        for name, (arr, orig) in sorted(self._args.items()):
+            out[f"argument:{name}"] = arr.copy()
+        return out
+
+    def pristine_args(self):
+        return {f"argument:{name}": orig for name, (arr, orig) in self._args.items()}
+
+
+def _cp(v):
+    return v.copy() if isinstance(v, numpy.ndarray) else v
+
+
+def first_difference(a, b):
+    """Name of the first entry of snapshot a that differs from snapshot b (only keys present in both)."""
+    from ..core import same
+    for k in sorted(a):
+        if k not in b:
+            continue
+        x, y = a[k], b[k]
+        if isinstance(x, numpy.ndarray) or isinstance(y, numpy.ndarray):
+            if not same(x, y) or (x is not None and y is not None and numpy.asarray(x).dtype != numpy.asarray(y).dtype):
+                return k
+        elif x != y:
+            return k
+    return None
 
 
 # ------------------------------------------------------------------------------------------------------
